@@ -307,7 +307,18 @@ def compare(bins, ops, impl, model, by_sid):
                                           "decl": s.rust_decl(), "note": s.note})
     for p in per_prop.values():
         p["distinct"] = len(p["distinct"])
-    return {"per_prop": per_prop, "mismatches": mismatches, "model_defects": model_defects,
+    bad_sids = []
+    for m in mismatches + model_defects:
+        if m["sid"] not in bad_sids:
+            bad_sids.append(m["sid"])
+    from subject import to_json
+    bad_subjects = {sid: to_json(by_sid[sid]) for sid in bad_sids[:100]}
+    for m in mismatches + model_defects:
+        m["nvariants"] = len(by_sid[m["sid"]].variants)
+        if len(m.get("decl", "")) > 3000:
+            m["decl"] = m["decl"][:3000] + "\n…"
+    return {"per_prop": per_prop, "mismatches": mismatches[:5000], "n_mismatches": len(mismatches),
+            "model_defects": model_defects[:2000], "bad_subjects": bad_subjects,
             "transcripts": transcripts, "model_tables": model_tables, "aborted": [list(a) for a in aborted], "n_ops": n_ops}
 
 
